@@ -1322,6 +1322,31 @@ class SubsetSegment(DataSegment):
         self.parent.write_raw(data, subscript=parent_subscript, **kwargs)
         self._update_pixels_written(data.size)
 
+    def write(
+            self,
+            data: numpy.ndarray,
+            start_indices: Union[None, int, Tuple[int, ...]] = None,
+            subscript: Union[None, Sequence[slice]] = None,
+            **kwargs) -> None:
+        # NB: formatted data must pass through the parent formatting, in the same
+        # way that read passes through the parent formatting
+        self._validate_closed()
+        if self.mode != 'w' or not self.parent.can_write_regular:
+            raise ValueError(
+                'I/O error, functionality requires mode = "w"\n\t'
+                'and the ability to invert the format function')
+
+        subscript = _infer_subscript_for_write(
+            data, start_indices, subscript, self.formatted_shape)
+        parent_subscript = self.get_parent_formatted_subscript(subscript)
+        # restore any dimensions which have been squeezed
+        _, parent_shape = get_subscript_result_size(parent_subscript, self.parent.formatted_shape)
+        self.parent.write(numpy.reshape(data, parent_shape), subscript=parent_subscript, **kwargs)
+        # account for this in terms of raw pixels
+        raw_subscript = self.parent.format_function.transform_formatted_slice(parent_subscript)
+        _, raw_shape = get_subscript_result_size(raw_subscript, self.parent.raw_shape)
+        self._update_pixels_written(int(numpy.prod(raw_shape)))
+
     def get_raw_bytes(self, warn: bool = True) -> Union[bytes, Tuple]:
         """
         This returns the bytes for the underlying raw data **of the parent segment.**
